@@ -16,6 +16,7 @@ use ChildState::*;
 
 pub use communicate::Communicator;
 pub use os::ext as os_ext;
+pub(crate) use os::make_internal_pipe;
 pub use os::make_pipe;
 pub(crate) use os::set_inheritable;
 
@@ -373,7 +374,7 @@ impl Popen {
         ) -> Result<()> {
             // Store the parent's end of the pipe into the given
             // reference, and store the child end.
-            let (read, write) = os::make_pipe()?;
+            let (read, write) = os::make_internal_pipe()?;
             let (parent_end, child_end) = if parent_writes {
                 (write, read)
             } else {
@@ -709,9 +710,7 @@ mod os {
 
     impl super::PopenOs for Popen {
         fn os_start(&mut self, argv: Vec<OsString>, config: PopenConfig) -> Result<()> {
-            let mut exec_fail_pipe = posix::pipe_above_std()?;
-            set_inheritable(&exec_fail_pipe.0, false)?;
-            set_inheritable(&exec_fail_pipe.1, false)?;
+            let mut exec_fail_pipe = posix::pipe_cloexec()?;
             {
                 let child_ends = self.setup_streams(config.stdin, config.stdout, config.stderr)?;
                 let child_env = config.env.as_deref().map(format_env);
@@ -985,6 +984,12 @@ mod os {
         posix::pipe_above_std()
     }
 
+    /// A pipe for the library's own use, which no child gets to see other
+    /// than as one of its standard streams.
+    pub fn make_internal_pipe() -> io::Result<(File, File)> {
+        posix::pipe_cloexec()
+    }
+
     pub mod ext {
         use crate::popen::ChildState::*;
         use crate::popen::Popen;
@@ -1212,6 +1217,10 @@ mod os {
     /// system.
     pub fn make_pipe() -> io::Result<(File, File)> {
         win32::CreatePipe(true)
+    }
+
+    pub fn make_internal_pipe() -> io::Result<(File, File)> {
+        make_pipe()
     }
 
     fn locate_in_path(executable: OsString) -> OsString {
